@@ -1,10 +1,19 @@
 use std::fmt;
 use std::slice;
 use std::str;
+#[cfg(not(sourcemap_verif = "loom"))]
 use std::sync::atomic::AtomicUsize;
+#[cfg(not(sourcemap_verif = "loom"))]
 use std::sync::atomic::Ordering;
 use std::sync::Arc;
+#[cfg(not(sourcemap_verif = "loom"))]
 use std::sync::Mutex;
+
+#[cfg(sourcemap_verif = "loom")]
+use loom::sync::{
+    atomic::{AtomicUsize, Ordering},
+    Mutex,
+};
 
 use if_chain::if_chain;
 
